@@ -15,6 +15,7 @@ Boolean here which the driver evaluates on every case it judges; `Theorems/C09.l
   erOkB      … as a multiset
   eoOkB      the edge-index order of `condensation`'s input enumerates the edges
   nodeB      a start node is a node
+  acrossB    a `TarjanScc` used on a graph with `m` nodes before: `1 + m + |nodes| ≤ usize::MAX` (wave 6)
 -/
 namespace PetgraphModel.C09J
 open PetgraphModel
@@ -51,5 +52,8 @@ def erOkB (g : MGraph) (er : List (Nat × Nat)) : Bool :=
 def eoOkB (v : View) (eo : List Nat) : Bool := (eo.filterMap v.edge?).isPerm v.g.edges
 
 def nodeB (g : MGraph) (a : Nat) : Bool := g.nodes.contains a
+
+/-- room for the counters of a new `TarjanScc` that runs on a graph with `m` nodes and then on this one -/
+def acrossB (m : Nat) (v : View) : Bool := decide (1 + m + v.g.nodes.length ≤ C09M.usizeMax)
 
 end PetgraphModel.C09J
